@@ -45,8 +45,14 @@ package mergeplan
 //@   infer
 //@   requires len(toRemove) <= len(segments)
 //@   ensures len(result) <= len(segments)
+//@   ensures [nothing-new-appears] forall xt int, xr ref :: (forall j int :: (0 <= j && j < len(segments)) ==> (elemsk(segments, 0)[off(segments) + j] != xt || elemsk(segments, 1)[off(segments) + j] != xr)) ==> (forall k int :: (0 <= k && k < len(result)) ==> (elemsk(result, 0)[off(result) + k] != xt || elemsk(result, 1)[off(result) + k] != xr))
+//@   ensures [nothing-that-was-to-be-removed-stays] forall k int, m int :: (0 <= k && k < len(result) && 0 <= m && m < len(toRemove)) ==> (elemsk(result, 0)[off(result) + k] != elemsk(toRemove, 0)[off(toRemove) + m] || elemsk(result, 1)[off(result) + k] != elemsk(toRemove, 1)[off(toRemove) + m])
 //@   loop 1
 //@     invariant rangeindex < len(segments) && len(rv) <= rangeindex + 1
+//@     invariant forall xt int, xr ref :: (forall j int :: (0 <= j && j < len(segments)) ==> (elemsk(segments, 0)[off(segments) + j] != xt || elemsk(segments, 1)[off(segments) + j] != xr)) ==> (forall k int :: (0 <= k && k < len(rv)) ==> (elemsk(rv, 0)[off(rv) + k] != xt || elemsk(rv, 1)[off(rv) + k] != xr))
+//@     invariant forall k int, m int :: (0 <= k && k < len(rv) && 0 <= m && m < len(toRemove)) ==> (elemsk(rv, 0)[off(rv) + k] != elemsk(toRemove, 0)[off(toRemove) + m] || elemsk(rv, 1)[off(rv) + k] != elemsk(toRemove, 1)[off(toRemove) + m])
+//@   loop 2
+//@     invariant forall m int :: (0 <= m && m <= rangeindex) ==> (tag(segment) != elemsk(toRemove, 0)[off(toRemove) + m] || iref(segment) != elemsk(toRemove, 1)[off(toRemove) + m])
 
 //@ func CalcBudget
 //@   nopanic nonil
@@ -57,3 +63,19 @@ package mergeplan
 //@ func Plan
 //@   props C14 C19 C06
 //@   opaque
+
+// plan: a roster that has been put into a merge task is taken out of the eligibles by removeSegments
+// (whose contract says that nothing of it stays and nothing new appears), so no segment can be put into a
+// second task. The quantified invariant "scheduled segments are no longer eligible" over the nested
+// slices of plan() did not discharge within budget and is NOT claimed; what is checked is that the
+// eligibles are recomputed from exactly the scheduled roster.
+//@ func plan(segmentsIn, o) (mp, err)
+//@   props C19
+//@   modifies *
+//@   at call removeSegments: assert [the-scheduled-roster-is-what-is-removed-from-the-eligibles] base(toRemove) == base(bestRoster) && len(toRemove) == len(bestRoster) && off(toRemove) == off(bestRoster)
+//@   loop 1
+//@     invariant len(empties) <= rangeindex + 1 && rangeindex < len(eligibles)
+//@   loop 3
+//@     invariant 0 <= startIdx && len(bestRoster) <= len(eligibles)
+//@   loop 4
+//@     invariant 0 <= startIdx && startIdx <= idx && idx <= len(eligibles) && len(roster) <= idx - startIdx && len(bestRoster) <= len(eligibles)
